@@ -976,6 +976,10 @@ impl<'a> Analyzer<'a> {
         PanicKind::Recursion => {
           self.add(s, &[Prop::C07], "unbounded-recursion", "", "the recursion bound of the harness was hit: a cycle was not diagnosed".to_string());
         }
+        PanicKind::Runaway => {
+          let all = [Prop::C01, Prop::C02, Prop::C03, Prop::C04, Prop::C05, Prop::C06, Prop::C07, Prop::C08, Prop::C09, Prop::C16, Prop::C17, Prop::C18, Prop::C19, Prop::C20];
+          self.add(s, &all, "non-terminating-build", "", format!("the build produced {} events without finishing (runaway bound of the harness)", crate::world::RUNAWAY_EVENTS));
+        }
         PanicKind::Internal => {
           // After an earlier abort this is C19's concern only; in a history without aborts no property expects it.
           let props: &[Prop] = if pre_post_abort { &[Prop::C19] } else { &[Prop::C19, Prop::C18, Prop::C20, Prop::C01] };
